@@ -1,4 +1,4 @@
-CONSTANTS Hist = FALSE  Depth = 0  Dev = {}  Slim = FALSE
+CONSTANTS Hist = FALSE  Depth = 0  Dev = {}  Slim = FALSE  Shape = "throwing"
 INIT Init
 NEXT Next
 INVARIANTS TypeOK Property
